@@ -140,6 +140,8 @@ structure Adds (st st' : St) (d : Eff) : Prop where
   inAnno : st'.inAnno = st.inAnno
   annoOnly : st'.annoOnly = false
   comps : st'.comps = []
+  /-- annotations are only ever added -/
+  ext : ∃ new, st'.annos = new ++ st.annos
 
 /-- The states in which the compositionality lemmas hold: some scope is open, no comprehension is
     being processed, the parameter pass (`_track_annotations_only`) is not active. -/
@@ -151,20 +153,21 @@ structure Plain (st : St) : Prop where
 theorem Adds.plain {st st' : St} {d : Eff} (h : Adds st st' d) : Plain st' := ⟨h.ne, h.comps, h.annoOnly⟩
 
 theorem Adds.refl {st : St} (h : Plain st) : Adds st st {} :=
-  ⟨h.ne, rfl, ScopeAdds.refl _, rfl, rfl, rfl, h.annoOnly, h.comps⟩
+  ⟨h.ne, rfl, ScopeAdds.refl _, rfl, rfl, rfl, h.annoOnly, h.comps, ⟨[], rfl⟩⟩
 
 theorem Adds.trans {a b c : St} {d1 d2 : Eff} (h1 : Adds a b d1) (h2 : Adds b c d2) : Adds a c (d1 ++ d2) :=
   ⟨h2.ne, h2.tail.trans h1.tail, h1.top.trans h2.top, h2.fns.trans h1.fns, h2.inAug.trans h1.inAug,
-   h2.inAnno.trans h1.inAnno, h2.annoOnly, h2.comps⟩
+   h2.inAnno.trans h1.inAnno, h2.annoOnly, h2.comps,
+   by obtain ⟨n1, e1⟩ := h1.ext; obtain ⟨n2, e2⟩ := h2.ext; exact ⟨n2 ++ n1, by rw [e2, e1, List.append_assoc]⟩⟩
 
 theorem Adds.congr {a b : St} {d e : Eff} (h : Adds a b d) (he : Eff.Equiv d e) : Adds a b e :=
-  ⟨h.ne, h.tail, h.top.congr he, h.fns, h.inAug, h.inAnno, h.annoOnly, h.comps⟩
+  ⟨h.ne, h.tail, h.top.congr he, h.fns, h.inAug, h.inAnno, h.annoOnly, h.comps, h.ext⟩
 
 /-- A modification of the top scope that adds `d`. -/
 theorem Adds.modTop {st : St} (h : Plain st) (f : Scope → Scope) (d : Eff) (hf : ScopeAdds st.top (f st.top) d) :
     Adds st (st.modTop f) d :=
   ⟨by simpa using h.ne, by simp, by rw [St.modTop_top _ _ h.ne]; exact hf, by simp, by simp, by simp,
-   by simpa using h.annoOnly, by simpa using h.comps⟩
+   by simpa using h.annoOnly, by simpa using h.comps, ⟨[], by simp⟩⟩
 
 theorem Adds.addRead {st : St} (h : Plain st) (q : QN) : Adds st (st.addRead q) { read := [q] } :=
   Adds.modTop h _ _ ⟨rfl, rfl, rfl, rfl, rfl, by intro x; simp [or_comm], by simp, by simp, by simp, by simp, by simp, by simp⟩
@@ -295,7 +298,7 @@ theorem scoped_block {st st2 : St} (h : Plain st) (iso : Bool) (fn : Option Stri
       { st2 with stack := c.finalizeInto p :: r, closed := c :: st2.closed,
                  annos := (recs.map fun (n, k) => (n, k, c)).reverse ++ st2.annos } := by
     simp [St.exitWith, hstack]
-  refine ⟨⟨?_, ?_, ?_, ?_, ?_, ?_, ?_, ?_⟩, c, hpop, ?_, hc⟩
+  refine ⟨⟨?_, ?_, ?_, ?_, ?_, ?_, ?_, ?_, ?_⟩, c, hpop, ?_, hc⟩
   · rw [hex]; simp
   · rw [hex, hst]; simp
   · rw [hex, hp]
@@ -305,6 +308,8 @@ theorem scoped_block {st st2 : St} (h : Plain st) (iso : Bool) (fn : Option Stri
   · rw [hex]; simpa using h2.inAnno
   · rw [hex]; simpa using h2.annoOnly
   · rw [hex]; simpa using h2.comps
+  · obtain ⟨n2, e2⟩ := h2.ext
+    exact ⟨(recs.map fun (n, k) => (n, k, c)).reverse ++ n2, by rw [hex]; simp [e2]⟩
   · rw [hex]
 
 end Malt.Analysis
@@ -313,6 +318,10 @@ namespace Malt.Analysis
 open Malt.Py
 
 /-! ### the fragment and the effect of expressions -/
+
+def isWithitem : Expr → Bool
+  | .withitem .. => true
+  | _ => false
 
 def isPlainArg : Expr → Bool
   | .arg _ _ [] => true
@@ -570,9 +579,10 @@ theorem Adds.inCtx {a b : St} {d : Eff} {fns aug anno} (h : Adds a b d) (c : InC
 theorem InCtx.enter {st : St} {fns aug anno} (c : InCtx st fns aug anno) (iso : Bool) (fn : Option String) :
     InCtx (st.enter iso fn) fns aug anno := ⟨c.fns, c.inAug, c.inAnno⟩
 
-/-- Changing only the annotations list does not disturb `Adds`. -/
-theorem Adds.setAnnos {a b : St} {d : Eff} (h : Adds a b d) (an : List Anno) : Adds a { b with annos := an } d :=
-  ⟨h.ne, h.tail, h.top, h.fns, h.inAug, h.inAnno, h.annoOnly, h.comps⟩
+/-- Adding an annotation does not disturb `Adds`. -/
+theorem Adds.consAnno {a b : St} {d : Eff} (h : Adds a b d) (x : Anno) : Adds a { b with annos := x :: b.annos } d :=
+  ⟨h.ne, h.tail, h.top, h.fns, h.inAug, h.inAnno, h.annoOnly, h.comps,
+   by obtain ⟨n, e⟩ := h.ext; exact ⟨x :: n, by simp [e]⟩⟩
 
 theorem St.head?_eq_top {st : St} (h : st.stack ≠ []) : st.stack.head? = some st.top := by
   unfold St.top
@@ -587,13 +597,13 @@ theorem InCtx.pushFn {st : St} {fns aug anno} (c : InCtx st fns aug anno) (f : F
 
 /-- Visits bracketed by a push and a pop of the function/class stack. -/
 theorem Adds.popFn {st b : St} {f : FnCtx} {d : Eff} (h : Adds (st.pushFn f) b d) : Adds st b.popFn d :=
-  ⟨h.ne, h.tail, h.top, by simp [St.popFn, h.fns, St.pushFn], h.inAug, h.inAnno, h.annoOnly, h.comps⟩
+  ⟨h.ne, h.tail, h.top, by simp [St.popFn, h.fns, St.pushFn], h.inAug, h.inAnno, h.annoOnly, h.comps, h.ext⟩
 
 /-- Recording the open scope on a node does not disturb `Adds`. -/
 theorem Adds.recordTop {a b : St} {d : Eff} (h : Adds a b d) (n : Nat) (k : AnnoKey) : Adds a (b.recordTop n k) d := by
   unfold St.recordTop
   split
-  · exact h.setAnnos _
+  · exact h.consAnno _
   · exact h
 
 theorem Adds.scopedAdds {st st2 : St} (h : Plain st) (iso : Bool) (fn : Option String) {d : Eff}
@@ -818,7 +828,7 @@ theorem restore_adds {st st1 : St} {d1 : Eff} (h : Plain st) (A1 : Adds st st1 d
     simp [copyFromStack, copyFromStack_self]
   have htop : (st1.restore st.stack).top = st1.top.copyFrom st.top := by
     simp [St.top, hstack]
-  refine ⟨by rw [hstack]; simp, by rw [hstack]; simp, ?_, A1.fns, A1.inAug, A1.inAnno, A1.annoOnly, A1.comps⟩
+  refine ⟨by rw [hstack]; simp, by rw [hstack]; simp, ?_, A1.fns, A1.inAug, A1.inAnno, A1.annoOnly, A1.comps, A1.ext⟩
   rw [htop]
   exact ⟨A1.top.sid, A1.top.parent, A1.top.isolated, A1.top.functionName, rfl, by simp [Scope.copyFrom],
     by simp [Scope.copyFrom], by simp [Scope.copyFrom], by simp [Scope.copyFrom],
@@ -840,7 +850,7 @@ theorem parallel_adds {st st1 st2 : St} {d1 d2 : Eff} (h : Plain st) (A1 : Adds 
     simp [mergeFromStack, mergeFromStack_self]
   have htop : (st2.mergeAfter st1.stack st2.stack).top = (st2.top.mergeFrom st1.top).mergeFrom st2.top := by
     simp [St.top, hstack]
-  refine ⟨by rw [hstack]; simp, by rw [hstack]; simp, ?_, A02.fns, A02.inAug, A02.inAnno, A02.annoOnly, A02.comps⟩
+  refine ⟨by rw [hstack]; simp, by rw [hstack]; simp, ?_, A02.fns, A02.inAug, A02.inAnno, A02.annoOnly, A02.comps, A02.ext⟩
   rw [htop]
   have T1 := A1.top
   have T2 := A02.top
@@ -880,7 +890,7 @@ def FragS : Stmt → Bool
   | .for_ _ t it body orelse extra isAsync => !isAsync && extra.isEmpty && FragE t && FragE it && FragSs body && FragSs orelse
   | .while_ _ t body orelse => FragE t && FragSs body && FragSs orelse
   | .if_ _ t body orelse => FragE t && FragSs body && FragSs orelse
-  | .with_ _ items body isAsync => !isAsync && FragEs items && FragSs body
+  | .with_ _ items body isAsync => !isAsync && FragEs items && items.all isWithitem && FragSs body
   | .raise _ e c => FragEs e && FragEs c
   | .try_ _ b h o f => FragSs b && FragSs h && FragSs o && FragSs f
   | .handler _ ty _ body => FragEs ty && FragSs body
@@ -969,7 +979,7 @@ theorem PlainS.pushFn {st : St} {fns} (p : PlainS st fns) (f : FnCtx) : PlainS (
 /-- `_in_aug_assign = True; visit; _in_aug_assign = False`. -/
 theorem aug_bracket {st X : St} {d : Eff} {fns} (p : PlainS st fns) (h : Adds (st.setInAug true) X d) :
     Adds st (X.setInAug false) d :=
-  ⟨h.ne, h.tail, h.top, h.fns, p.ctx.inAug.symm ▸ rfl, h.inAnno, h.annoOnly, h.comps⟩
+  ⟨h.ne, h.tail, h.top, h.fns, p.ctx.inAug.symm ▸ rfl, h.inAnno, h.annoOnly, h.comps, h.ext⟩
 
 theorem PlainS.setInAug {st : St} {fns} (p : PlainS st fns) :
     Plain (st.setInAug true) ∧ InCtx (st.setInAug true) fns true false :=
@@ -978,7 +988,7 @@ theorem PlainS.setInAug {st : St} {fns} (p : PlainS st fns) :
 /-- `_process_annotation`. -/
 theorem anno_bracket {st X : St} {d : Eff} {fns} (p : PlainS st fns) (h : Adds (st.setInAnno true) X d) :
     Adds st (X.setInAnno false) d :=
-  ⟨h.ne, h.tail, h.top, h.fns, h.inAug, p.ctx.inAnno.symm ▸ rfl, h.annoOnly, h.comps⟩
+  ⟨h.ne, h.tail, h.top, h.fns, h.inAug, p.ctx.inAnno.symm ▸ rfl, h.annoOnly, h.comps, h.ext⟩
 
 theorem PlainS.setInAnno {st : St} {fns} (p : PlainS st fns) :
     Plain (st.setInAnno true) ∧ InCtx (st.setInAnno true) fns false true :=
@@ -1131,13 +1141,13 @@ theorem visitS_adds : (s : Stmt) → (st : St) → (fns : List FnCtx) → PlainS
       have E : Adds (st.enter false) (if name.isEmpty = true then st.enter false else (st.enter false).setErr) {} := by
         split
         · exact Adds.refl p1.plain
-        · exact ⟨p1.plain.ne, rfl, ScopeAdds.refl _, rfl, rfl, rfl, p1.plain.annoOnly, p1.plain.comps⟩
+        · exact ⟨p1.plain.ne, rfl, ScopeAdds.refl _, rfl, rfl, rfl, p1.plain.annoOnly, p1.plain.comps, ⟨[], rfl⟩⟩
       have A1 := E.trans (visitEs_adds ty _ E.plain hf.1 fns false false (E.inCtx p1.ctx))
       have A2 := A1.trans (visitSs_adds body _ fns (A1.plainS p1) hf.2)
       exact (Adds.scopedAdds p.plain false none A2 []).congr (by eff_equiv)
   | .with_ i items body isAsync, st, fns, p, hf => by
       simp only [FragS, Bool.and_eq_true, Bool.not_eq_true'] at hf
-      obtain ⟨⟨ha, hi⟩, hb⟩ := hf
+      obtain ⟨⟨⟨ha, hi⟩, -⟩, hb⟩ := hf
       subst ha
       simp only [visitS, effS, Bool.false_eq_true, ↓reduceIte]
       have p1 := p.enter false none
